@@ -32,4 +32,15 @@ mod verif_c01 {
         assert!(n() == 1 && at(0) == Ev::Bool(t));
         kani::cover!(d.is_nan());
     }
+
+    #[kani::proof]
+    fn human_readable_flags_agree() {
+        let mut ss = Serializer::new(std::io::sink());
+        assert!(!ser::Serializer::is_human_readable(&&mut ss));
+        let mut sc = crate::smile::ClientDeserializer::from_slice(b"");
+        assert!(!serde::Deserializer::is_human_readable(&&mut sc));
+        let mut ssv = crate::smile::ServerDeserializer::from_slice(b"");
+        assert!(!serde::Deserializer::is_human_readable(&&mut ssv));
+        kani::cover!(true);
+    }
 }
